@@ -1,14 +1,31 @@
 package main
 
-import "fmt"
+import (
+	"fmt"
+	"strings"
+
+	"github.com/jf-tech/omniparser/idr"
+)
 
 func init() {
 	cmds["probe"] = func(args []string) int {
-		s := `{"parser_settings": {"version": "omni.2.1", "file_format_type": "xml"},
- "transform_declarations": {"FINAL_OUTPUT": {"object": {"a": {"template": "T"}}},
-   "T": {"xpath_dynamic": {"custom_func": {"name": "concat", "args": [null]}}}}}`
-		_, err, p := newSchema([]byte(s))
-		fmt.Println("err:", err, "panic:", p)
+		for _, doc := range []string{
+			`<root xmlns:p="urn:p"><r:x xmlns:r="urn:p"/><p:c/></root>`,
+			`<root xmlns:p="urn:p"><p:x xmlns:p="urn:other"><p:y/></p:x><p:c/></root>`,
+			`<root xmlns="urn:d"><x xmlns=""><y/></x><c/></root>`,
+			`<root xmlns:p="urn:p" xmlns:q="urn:p"><p:a/><q:a/></root>`,
+		} {
+			sr, err := idr.NewXMLStreamReader(strings.NewReader(doc), "/*")
+			if err != nil {
+				fmt.Println(err)
+				continue
+			}
+			n, err := sr.Read()
+			fmt.Println(doc, err)
+			if err == nil {
+				fmt.Println("   ", idr.JSONify2(n))
+			}
+		}
 		return 0
 	}
 }
